@@ -405,9 +405,25 @@ def _floyd_block(bct, res, case, A, transform, Lm, oracle, best, tol, exact, rou
             if not close(float(GE), want):
                 zero = bool(np.any(oracle[offdiag(n)] == 0))     # a zero distance between distinct nodes (log transform of weight 1)
                 res['fails'].append((rname, 'mean-inverse', {'GErout': float(GE), 'oracle': want, 'cond': {'zero_distance': zero, 'transform': transform or 'none'}}))
+            # local part: Eloc[u] = sum over ordered pairs of distinct neighbours a, b of u of 1/d_ab in the sub-graph induced by the
+            # in/out-neighbours of u, divided by their number (NaN for a node without neighbours)
+            Araw = np.asarray(A, dtype=float); eloc = np.asarray(out[2], dtype=float).ravel(); want_loc = []
+            for u in range(n):
+                V = [j for j in range(n) if Araw[u, j] != 0 or Araw[j, u] != 0]
+                if not V:
+                    want_loc.append(float('nan')); continue
+                sub = minplus_closure(np.asarray(Lm, dtype=float)[np.ix_(V, V)])
+                tot = sum(0.0 if math.isinf(sub[a, b]) else (INF if sub[a, b] == 0 else 1.0 / sub[a, b])
+                          for a in range(len(V)) for b in range(len(V)) if a != b)
+                want_loc.append(tot / len(V))
+            if len(eloc) != n or not all(close(float(a), b) for a, b in zip(eloc, want_loc)):
+                zero = bool(np.any(oracle[offdiag(n)] == 0))
+                res['fails'].append((rname, 'local-mean-inverse', {'Eloc': [float(x) for x in eloc], 'oracle': want_loc,
+                                                                   'cond': {'zero_distance': zero, 'transform': transform or 'none'}}))
             if exact and transform != 'log':
                 res['lines'].append(('rout n=%d A=%s transform=%s' % (n, mstr(A), transform or 'none'),
-                                     [('GE', 'tol', float(GE)), ('Erout', 'tolmat', [float(x) for x in np.asarray(Erout, dtype=float).ravel()])]))
+                                     [('GE', 'tol', float(GE)), ('Erout', 'tolmat', [float(x) for x in np.asarray(Erout, dtype=float).ravel()]),
+                                      ('Eloc', 'tolmat', [float(x) for x in eloc])]))
 
 
 # reachdist stores inf into a copy of its argument: integer / bool storage raises OverflowError (open finding
